@@ -107,6 +107,7 @@ def canon_value(v):
 
 def values(rng):
     vs = [("str_empty", ""), ("str_ascii", "hello"), ("str_unicode", "héllo ∀x — 中文"), ("str_big", "x" * 1000000),
+          ("str_crlf", "dos\r\nlines\r\n"), ("str_cr", "a\rb"), ("str_ws", " \t\n trailing \n"), ("str_nul", "a\x00b"),
           ("bytes_empty", b""), ("bytes", b"\x00\xff\x10abc"), ("bytes_big", bytes(range(256)) * 4000), ("none", None),
           ("int", 12345678901234567890), ("list", [1, "a", None]), ("dict", {"k": [1, 2]}), ("object", {"s": {1, 2}}),
           ("mytype", MyType(("a", 1)))]
